@@ -44,6 +44,26 @@ CLAIMED = {
             "Writer part of C18: every history (depth 2, thorough 3, over 12 operations incl. growth, disabled flushing, extension, source error, failing destination) followed by Reset(side', op') or PutWriter/GetWriter and every depth-2 suffix must be accepted by the monitor restarted in its Fresh state and must equal, event by event, a freshly constructed writer of the same Size(). TLC proves ResetIsFresh on the model for all bounded histories.",
             "Other resettable objects (compression writer/reader, mask/UTF-8 readers, negotiator, message reader) are added by their drivers.",
             "7/C18"),
+    "C04": ("model_checking",
+            "TLA+ property-level monitor WsReaderMon + exhaustive TLC exploration of the implementation-level reader model (WsReaderImpl) + trace validation of the real Reader/NextReader/ReadMessage/ReadData",
+            "WsReaderMon specifies reassembly as a deterministic monitor over public-call events, using the number of transport bytes pulled to know which frame headers were consumed. TLC explores WsReaderImpl (NextFrame/Read/Discard algorithm) for all streams of <= 3 frames over the alphabet with every read-size sequence and checks Refines. Traces of the real code: every RFC-valid frame sequence up to 3 frames (thorough: crossed with all 9 entry variants, + 4 frames) on both sides through Reader (with/without UTF-8, Discard at 0/1), NextReader, ReadMessage, ReadData/Text/Binary under 5 transport chunkings and 5 caller buffer sizes; seeded random position-coded streams of 5-40 frames across the 125/126 and 65535/65536 boundaries.",
+            "Bounded alphabets/depths as stated. Frame offsets come from the harness' own codec (validated in C01).",
+            "7/C04"),
+    "C05": ("model_checking",
+            "WsReaderMon first-offending-frame oracle (WsCheck!Broken folded over the fragmentation state) + TLC on WsReaderImpl with invalid frames + trace validation",
+            "Every valid prefix (0..2 frames; thorough 3) extended by each of 25 invalid frames applicable in that state and a trailing ping, both sides, Reader/ReadMessage/ReadData, and MaxFrameSize in {len-1,len,len+1} at every position: everything before the offending frame is delivered as for a valid stream, the call that reaches it returns a protocol error naming a broken rule (or the size-limit error) with not one payload byte of it pulled from the transport, nothing after it is delivered. TLC checks the same on WsReaderImpl for all streams of <= 3 frames including invalid ones, with and without the extension and a size limit.",
+            "Which of several broken rules is reported is left open.",
+            "7/C05"),
+    "C07": ("model_checking",
+            "Utf8.tla (RFC 3629 table = streaming automaton, TLC-checked) as oracle inside WsReaderMon + record validation of the standalone UTF8Reader + trace validation of text messages under every fragment split",
+            "MCUtf8: TLC proves table == automaton and split-independence on all strings over 24 boundary bytes up to length 4 (346k states). 32 valid/invalid strings as text messages under every split into <= 3 fragments, optional pings between fragments, a following message on the same reader, binary control; Reader(CheckUTF8)/ReadMessage/ReadData; accepted iff WellFormed(concatenation), invalid never reported as complete, 'invalid' only when no completion could be valid. Standalone UTF8Reader: all 1-byte, boundary (thorough: all) 2-byte, structured 3/4-byte strings under 3 chunkings judged by TLC.",
+            "3- and 4-byte strings are a structured cover, not all 2^32.",
+            "7/C07"),
+    "C13": ("model_checking",
+            "WsWriterMon rsv clause + WsReaderMon extension clauses (TLC on both Impl models) + trace validation",
+            "Send side: the monitor's clause 'rsv1 exactly on the first frame of a compressed message' is checked on every C06 trace with the MessageState extension and by TLC on WsWriterImpl. Receive side: message shapes with every RSV pattern on every frame position, extension attached, StateExtended on/off: IsCompressed() equals RSV1 of the current message's first frame, undisturbed by control frames; the header handed out has RSV1 cleared and RSV2/3 untouched; RSV1 on a continuation or control frame is a protocol error. TLC checks CompState and Refines on WsReaderImpl with the extension.",
+            "End-to-end round trip through the compression stack is part of C12's driver.",
+            "7/C13"),
 }
 
 PENDING_REASON = "check not built yet in this round (work in progress; planned in DESIGN.md section 7)"
